@@ -124,7 +124,13 @@ func checkC05(r *Run) {
 				}
 				ast.Inspect(f.Decl.Body, func(n ast.Node) bool {
 					if id, ok := n.(*ast.Ident); ok && info.Uses[id] == wr && !callIdents[id] {
-						okSites = false // used as a value: its callers are not known
+						// used as a value: its callers are not known - unless the value only goes into a local of a
+						// licensed function that is called there and nowhere else (eval := c.evalOrNil; eval(x))
+						if licensed[f.Obj] && methodValueStaysLocal(w, info, f, id) {
+							nSites++
+							return true
+						}
+						okSites = false
 					}
 					return true
 				})
@@ -1053,4 +1059,50 @@ func lastIndexOf(v ssa.Value, root ssa.Value) bool {
 		}
 	}
 	return false
+}
+
+// methodValueStaysLocal: the identifier names a function used as a value, and that value is assigned to a local
+// variable of f whose every other use is to be called.
+func methodValueStaysLocal(w *World, info *types.Info, f *FuncInfo, id *ast.Ident) bool {
+	var e ast.Node = id
+	if sel, ok := w.Parent(id).(*ast.SelectorExpr); ok && sel.Sel == id {
+		e = sel
+	}
+	as, ok := w.Parent(e).(*ast.AssignStmt)
+	if !ok || len(as.Lhs) != len(as.Rhs) {
+		return false
+	}
+	var local types.Object
+	for i, rhs := range as.Rhs {
+		if ast.Node(rhs) == e {
+			local = objOf(info, as.Lhs[i])
+		}
+	}
+	v, isVar := local.(*types.Var)
+	if !isVar || v.Parent() == nil || v.Pkg() == nil || v.Parent() == v.Pkg().Scope() || v.IsField() {
+		return false
+	}
+	okAll := true
+	ast.Inspect(f.Decl.Body, func(n ast.Node) bool {
+		x, isId := n.(*ast.Ident)
+		if !isId || info.Uses[x] != types.Object(v) {
+			return true
+		}
+		switch p := w.Parent(x).(type) {
+		case *ast.CallExpr:
+			if ast.Node(p.Fun) != ast.Node(x) {
+				okAll = false // handed on as an argument
+			}
+		case *ast.AssignStmt:
+			for _, r := range p.Rhs {
+				if ast.Node(r) == ast.Node(x) {
+					okAll = false
+				}
+			}
+		default:
+			okAll = false
+		}
+		return true
+	})
+	return okAll
 }
